@@ -379,7 +379,9 @@ class AsyncChannel(BaseChannel):
         async with self._channel_lock():
             while True:
                 try:
-                    buf = await asyncio.wait_for(self.read(), timeout=read_interval)
+                    # a timeout of 0 would cancel every read before it starts; timeout_ops of 0 means
+                    # "no timeout" everywhere else, so poll without a timeout in that case
+                    buf = await asyncio.wait_for(self.read(), timeout=read_interval or None)
                 except asyncio.TimeoutError:
                     buf = b""
 
